@@ -309,6 +309,17 @@ func c15Reprs(a c15Alpha, idx []int) (names []string, builds []func() any) {
 	}
 	names = append(names, "[]any")
 	builds = append(builds, func() any { return gen() })
+	// the same slice with spare capacity holding sentinels: an append to the receiver would write there
+	names = append(names, "[]any+spare-capacity")
+	builds = append(builds, func() any {
+		g := gen()
+		full := make([]any, len(g), len(g)+4)
+		copy(full, g)
+		for i, sp := len(g), full[:cap(full)]; i < len(sp); i++ {
+			sp[i] = "SENTINEL"
+		}
+		return full
+	})
 	if a.typed != nil {
 		names = append(names, "typed-slice")
 		builds = append(builds, func() any { return a.typed(gen()) })
@@ -416,7 +427,12 @@ func c15Families(tier string) []explore.Family {
 				r.Eval()
 				r.Transition()
 				av := builds[ri]()
+				before := explore.Snapshot(av)
 				o := c15Render(src, map[string]any{"a": av, "other": []any{9, "z", nil}})
+				if after := explore.Snapshot(av); after != before {
+					r.Violation("input-modified:"+spelling+":"+names[ri], map[string]any{"template": src, "a": ref.Show(in), "representation": names[ri]},
+						"the bound array (up to its capacity) is unchanged", trunc80(firstDiff(after, before)))
+				}
 				desc := func() any {
 					return map[string]any{"template": src, "a": ref.Show(in), "representation": names[ri], "other": `[9,"z",nil]`}
 				}
@@ -454,12 +470,31 @@ func c15Families(tier string) []explore.Family {
 							r.Violation("size-disagrees:"+key, desc(), "size = number of elements iterated", o.Out)
 						}
 					}
+					if g != nil && !f.scalar {
+						// the intermediate value x = a | F must survive being filtered twice
+						show := func(v string) string { return "{% for e in " + v + " %}[{{ e }}]{% endfor %}" }
+						tail := func(v string) string {
+							if g.scalar {
+								return "{{ " + v + " }}"
+							}
+							return show(v)
+						}
+						src2 := "{% assign x = a | " + f.name + " %}" + show("x") + "#{% assign y = x | " + g.name + " %}{% assign z = x | " + g.name + " %}" + show("x") + "#" + tail("y") + "#" + tail("z")
+						r.Eval()
+						o2 := c15Render(src2, map[string]any{"a": builds[0](), "other": []any{9, "z", nil}})
+						if o2.Err == nil && o2.Panic == nil {
+							p2 := strings.Split(o2.Out, "#")
+							if len(p2) == 4 && (p2[0] != p2[1] || p2[2] != p2[3]) {
+								r.Violation("intermediate-modified:"+key, map[string]any{"template": src2, "a": ref.Show(in)}, "x unchanged by filtering it, and both results equal", o2.Out)
+							}
+						}
+					}
 					r.Trace()
 					r.State(a.name + ":" + strconv.Itoa(len(in)))
 					if r.WantSample() {
 						r.Sample(map[string]any{"case": desc(), "observed": o.Out})
 					}
-				} else if o.Out != base {
+				} else if o.Out != base && names[ri] != "[]any+spare-capacity" || (names[ri] == "[]any+spare-capacity" && o.Out != base) {
 					// (R) every representation behaves as the generic slice
 					if spelling == "sort" && !a.homog {
 						continue
